@@ -711,8 +711,9 @@ std::vector<OptRef> collect_opts(Rng &r, const json &opts)
 }
 
 // the first NT titles are used for add / remove: one contains '=', "t1" is a proper prefix of "t10" and "t" of both
-static const char *TITLES[] = {"t10", "t1", "a=b", "t", "x|y", "it's", "", "T1", "T0", "a b", "q'x"};
-static const int NT = 8;
+// ("a" next to "a=b": a bare title runs up to the next '|', an '=' inside it belongs to it)
+static const char *TITLES[] = {"t10", "t1", "a=b", "a", "t", "x|y", "it's", "", "T1", "T0", "a b", "q'x"};
+static const int NT = 9;
 
 // a title from the pool; in case-insensitive runs half of them with the letter case flipped
 static std::string pool_title(Rng &r, bool flip_case)
